@@ -16,20 +16,35 @@ RULE = ("cmp: triples (sometimes 2, 4, 5 objects) built around a shared network:
         "prefix lengths cover 0, 1, w-2, w-1, w and the illegal -1, w+1; offsets cover 0, 1, size-2, size-1, size, -1, -size. "
         "Each +n is often followed by -n (round trip). int: IPv4Obj(n)/IPv6Obj(n) for n around 0 and the maximum. "
         "non-trivial = cmp with two objects sharing the network number, or seq with an arithmetic/setter operation, distinct by "
-        "request line. Non-integer operands, empty objects and mixed families are not generated.")
+        "request line. cmpx stream: 2..4 operands around one 32-bit pattern and one prefix length <= 32 - non-empty objects of either "
+        "family (so that an IPv4 and an IPv6 object with the same integer and length meet), the empty objects IPv4Obj() / "
+        "IPv6Obj(), a str - with <, >, ==, != of every ordered pair (escaping exception class included) and hash(), int(), "
+        "__index__(), prefixlen, masklen, masklength, prefixlength, +1, -1, network_offset of every operand; the oracle judges "
+        "the same-family non-empty pairs and the non-empty operands, the rest is compared with the model. seqx stream: sequences "
+        "that assign the prefix length through all four names (prefixlen, masklen, masklength, prefixlength) with int and with str "
+        "arguments (decimal text, leading zero, sign, blanks, empty, junk), assign network_offset a str or a float, add a str / "
+        "subtract a float, and read the four length getters, int() and __index__() in between (dotted-netmask texts are C11's).")
 LEVEL_TEXT = ("Theorems (Lean 4, all objects, any address width): __lt__ is the lexicographic order on (network, prefix length, address): "
               "irreflexive, asymmetric, transitive, trichotomous with __eq__; __gt__ is its flip; __eq__ iff same address and length; "
               "equal objects hash equal for any string hash; sorted() is an ordered permutation and puts a contained, more specific prefix "
               "after its container, so the first match in descending order is the longest match; x+n / x-n succeed exactly inside the address "
               "space, keep the prefix length and cancel; the prefixlen setter keeps the address; the network_offset setter sets it for "
-              "every offset inside the network and rejects every other integer, negative ones included.")
+              "every offset inside the network and rejects every other integer, negative ones included. On any operands (empty objects, "
+              "the other family, a str): on two non-empty objects the operators are the modelled ones (numeric, also across families; "
+              "IPv4Obj != IPv6Obj is always True); < and > raise ValueError as soon as one operand is empty or no address object; two "
+              "empty objects of a family are equal, an empty and a non-empty one are not; a str never equals an object; hash() returns, "
+              "int() is the address and the four length names agree on every non-empty object. masklen, masklength and (IPv4) "
+              "prefixlength assign exactly as prefixlen (IPv6Obj.prefixlength has no setter: AttributeError); the decimal text of n "
+              "assigns n, the decimal text of k is the offset k; other texts, a float offset and non-int operands of + / - are rejected "
+              "(NetmaskValueError, ValueError, NotImplementedError, ValueError).")
 LEVEL_NOTE = ("Trusted: Lean kernel; axioms propext/Classical.choice/Quot.sound only; the correspondence harness; the value-level reading "
               "of an object. hash() is uninterpreted in the model: only 'equal objects hash equal' is proved, and checked on the real hashes.")
 EXHAUSTIVE = {"quick": False, "thorough": False}
 ASSUMPTIONS = [
     "an object is read as (int(ip_object), int(network_object.network_address), network_object.prefixlen); text forms are C11",
     "str(ip_object) and str(prefixlen) are functions of the address and the length (used for eq_hash)",
-    "operands of + and - are ints; setter arguments are ints (a str netmask such as '255.255.0.0' is accepted by the code but not modelled)",
+    "setter arguments are ints or texts over digits, signs and blanks (a str netmask such as '255.255.0.0' is accepted by the code "
+    "but not modelled here - text forms are C11)",
 ]
 TRUSTED = ["stdlib ipaddress (used as the independent oracle for network numbers and bounds)"]
 
@@ -50,7 +65,25 @@ def mk_int(fam, n, origin="gen"):
             "req": wire.req("ipval", "int", str(fam), str(n)), "_origin": origin}
 
 
+def mk_cmpx(args, origin="gen"):
+    """<, >, ==, != of every ordered pair and hash / int / the length getters / +1 / -1 / network_offset of every operand, for
+    operands [fam, ip, len] (an object), [fam, "e"] (the empty object IPv4Obj() / IPv6Obj()), ["o"] (a str)"""
+    args = [list(a) for a in args]
+    return {"kind": "cmpx", "args": args, "tag": "cmpx",
+            "req": wire.req("ipvalx", "cmp", ";".join(c12.enc_arg(a) for a in args)), "_origin": origin}
+
+
+def mk_seqx(fam, ip, ln, ops, origin="gen"):
+    """an operation sequence that may use the other setter names, str / float arguments, non-int operands"""
+    return {"kind": "seqx", "fam": fam, "obj": [int(ip), int(ln)], "ops": list(ops), "tag": "seqx",
+            "req": wire.req("ipvalx", "seq", str(fam), f"{ip}/{ln}", *ops), "_origin": origin}
+
+
 def from_corpus(c):
+    if c["kind"] == "cmpx":
+        return mk_cmpx(c["args"], "corpus")
+    if c["kind"] == "seqx":
+        return mk_seqx(c["fam"], c["obj"][0], c["obj"][1], c["ops"], "corpus")
     if c["kind"] == "cmp":
         return mk_cmp(c["fam"], c["objs"], "corpus")
     if c["kind"] == "seq":
@@ -131,6 +164,87 @@ def rand_seq(rng, fam):
     return mk_seq(fam, ip, ln, ops)
 
 
+LEN_NAMES = ["prefixlen", "masklen", "masklength", "prefixlength"]
+
+
+def rand_cmpx(rng):
+    """2..4 operands around one 32-bit pattern and one prefix length <= 32, so that objects of the two families with the same
+    integer and length meet (== is numeric across families), plus the empty objects and a str"""
+    base = rand_ip(rng, 4)
+    ln0 = rng.choice([0, 1, 8, 24, 31, 32, rng.randint(0, 32)])
+    args = []
+    for _ in range(rng.choice([2, 3, 3, 4])):
+        r = rng.random()
+        fam = rng.choice([4, 6])
+        if r < 0.2:
+            args.append([fam, "e"])
+        elif r < 0.27:
+            args.append(["o"])
+        else:
+            w = W[fam]
+            ip = base if rng.random() < 0.5 else related(rng, 4, base)
+            if rng.random() < 0.1:
+                ip = rng.choice([0, (1 << w) - 1, rand_ip(rng, fam)])
+            ln = ln0 if rng.random() < 0.6 else rng.choice([0, 1, 31, 32, w - 1, w, rng.randint(0, w)])
+            args.append([fam, ip, min(ln, w)])
+    return mk_cmpx(args)
+
+
+def rand_text_int(rng, n):
+    r = rng.random()
+    t = str(n)
+    if r < 0.15:
+        t = "0" + t if n >= 0 else t
+    elif r < 0.25:
+        t = " " + t + rng.choice(["", " "])
+    elif r < 0.32:
+        t = "+" + t if n >= 0 else t
+    elif r < 0.37:
+        t = rng.choice(["", "x", "-", "1 2", "+-1", "1-"])
+    return t
+
+
+def rand_seqx(rng, fam):
+    w = W[fam]
+    top = (1 << w) - 1
+    ip = rng.choice([0, 1, top, top - 1]) if rng.random() < 0.3 else rand_ip(rng, fam)
+    ln = rng.choice([0, 1, w - 2, w - 1, w, rng.randint(0, w), rng.randint(0, w)])
+    cur_len = ln
+    ops = []
+    for _ in range(rng.choice([1, 2, 3, 4, 6])):
+        k = rng.random()
+        n = rng.choice([0, 1, w - 2, w - 1, w, w + 1, -1, rng.randint(0, w), cur_len, cur_len + 1, max(0, cur_len - 1)])
+        size = 1 << (w - cur_len)
+        if k < 0.30:
+            name = rng.choice(LEN_NAMES)
+            ops.append(f"setl:{name}:{n}")
+            if 0 <= n <= w and not (fam == 6 and name == "prefixlength"):
+                cur_len = n
+            ops.append("getl")
+        elif k < 0.50:
+            name = rng.choice(LEN_NAMES)
+            t = rand_text_int(rng, n)
+            ops.append(f"sets:{name}:{wire.enc_str(t)}")
+            if t.isdigit() and 0 <= int(t) <= w and not (fam == 6 and name == "prefixlength"):
+                cur_len = int(t)
+            ops.append("getl")
+        elif k < 0.68:
+            m = rng.choice([0, 1, size - 2, size - 1, size, size + 1, rng.randrange(size), -1])
+            ops.append("offs:" + wire.enc_str(rand_text_int(rng, m)))
+            ops.append(rng.choice(["goff", "int"]))
+        elif k < 0.76:
+            ops.append(rng.choice(["offx", "addx", "subx"]))
+        elif k < 0.88:
+            ops.append(rng.choice(["int", "getl", "show", "hash"]))
+        else:
+            ops.append(rng.choice([f"add:{rng.choice([1, -1, 255, 256])}", f"len:{n}", f"off:{rng.randrange(size)}"]))
+    ops.append("show")
+    ops.append("getl")
+    if rng.random() < 0.5:
+        ops.append("hash")
+    return mk_seqx(fam, ip, ln, ops)
+
+
 def cases(rng, tier):
     n = {"quick": 12000, "thorough": 200000, "search": 4000}[tier]
     if tier != "search":
@@ -144,9 +258,38 @@ def cases(rng, tier):
             yield shared_group(rng, fam)
         else:
             yield rand_seq(rng, fam)
+    # the other operands of the comparison operators, the other names of the setters, the other argument types
+    for i in range({"quick": 1600, "thorough": 40000, "search": 1000}[tier]):
+        if i % 2 == 0:
+            yield rand_cmpx(rng)
+        else:
+            yield rand_seqx(rng, 4 if i % 4 == 1 else 6)
 
 
 def neighbours(case, rng):
+    if case["kind"] == "cmpx":
+        for c in c12.neighbours({"kind": "inx", "args": case["args"]}, rng):
+            yield mk_cmpx(c["args"])
+        return
+    if case["kind"] == "seqx":
+        fam = case["fam"]
+        for _ in range(300):
+            ops = list(case["ops"])
+            i = rng.randrange(len(ops))
+            f = ops[i].split(":")
+            if f[0] == "setl":
+                ops[i] = f"setl:{rng.choice(LEN_NAMES)}:{int(f[2]) + rng.choice([-1, 0, 1])}"
+            elif f[0] == "sets":
+                ops[i] = f"sets:{rng.choice(LEN_NAMES)}:{wire.enc_str(rand_text_int(rng, rng.randint(-1, W[fam] + 1)))}"
+            elif f[0] == "offs":
+                ops[i] = "offs:" + wire.enc_str(rand_text_int(rng, rng.randint(-1, 300)))
+            else:
+                ops.insert(i, rng.choice(["getl", "int", "offx", "addx", "subx", "hash"]))
+            ip, ln = case["obj"]
+            if rng.random() < 0.3:
+                ln = max(0, min(W[fam], ln + rng.choice([-1, 1])))
+            yield mk_seqx(fam, ip, ln, ops)
+        return
     fam = case["fam"]
     w = W[fam]
     if case["kind"] == "cmp":
@@ -170,6 +313,10 @@ def neighbours(case, rng):
 
 
 def nontrivial(case):
+    if case["kind"] == "cmpx":
+        return len(case["args"]) >= 2
+    if case["kind"] == "seqx":
+        return any(o.split(":")[0] in ("setl", "sets", "offs", "offx", "addx", "subx") for o in case["ops"])
     if case["kind"] == "cmp":
         fam = case["fam"]
         nets = [(int(std_net(fam, ip, ln).network_address)) for ip, ln in case["objs"]]
@@ -180,7 +327,24 @@ def nontrivial(case):
 
 
 def describe(case):
+    if case["kind"] == "cmpx":
+        return {"kind": "cmpx", "operands": c12.describe({"kind": "inx", "args": case["args"]})["operands"]}
     fam = case["fam"]
+    if case["kind"] == "seqx":
+        ip, ln = case["obj"]
+        ops = []
+        for o in case["ops"]:
+            f = o.split(":")
+            if f[0] == "sets":
+                ops.append(f"{f[1]} = {wire.dec_str(f[2])!r}")
+            elif f[0] == "setl":
+                ops.append(f"{f[1]} = {f[2]}")
+            elif f[0] == "offs":
+                ops.append(f"network_offset = {wire.dec_str(f[1])!r}")
+            else:
+                ops.append({"offx": "network_offset = 1.5", "addx": "+ '1'", "subx": "- 1.0", "getl": "read the four length getters",
+                            "int": "int() / __index__()"}.get(o, o))
+        return {"kind": "seqx", "family": fam, "object": f"{addr_text(fam, ip)}/{ln}", "ops": ops}
     if case["kind"] == "cmp":
         return c12.describe(case)
     if case["kind"] == "seq":
@@ -190,9 +354,26 @@ def describe(case):
 
 
 def buckets(case, ans):
+    if case["kind"] == "cmpx":
+        out = ["cmpx"]
+        n = len(case["args"])
+        body = ans.split("|")[0].split(",")
+        what = lambda x: "str" if x[0] == "o" else f"empty{x[0]}" if x[1] == "e" else f"obj{x[0]}"  # noqa: E731
+        for i, a in enumerate(case["args"]):
+            for j, b in enumerate(case["args"]):
+                if len(body) == n * n and a[0] != "o":
+                    for opn, r in zip(("lt", "gt", "eq", "ne"), body[i * n + j].split("/")):
+                        if opn in ("lt", "eq"):
+                            out.append(f"cmpx:{what(a)} {opn} {what(b)}:{r}")
+        return out
     fam = case["fam"]
     out = [f"v{fam}:{case['kind']}"]
-    if case["kind"] == "seq":
+    if case["kind"] == "seqx":
+        for op, got in zip(case["ops"], ans.split("|")):
+            f = op.split(":")
+            name = f[0] + (":" + f[1] if f[0] in ("setl", "sets") else "")
+            out.append(f"opx:v{fam}:{name}:" + (got if got.startswith("err") else "ok"))
+    elif case["kind"] == "seq":
         for op, got in zip(case["ops"], ans.split("|")):
             name = op.split(":")[0]
             out.append(f"op:{name}:" + (got if got.startswith("err") else "ok"))
@@ -225,11 +406,13 @@ def impl(case):
     from ciscoconfparse2.ccp_util import IPv4Obj, IPv6Obj
     from ciscoconfparse2.errors import RequirementFailure
     from ipaddress import AddressValueError, NetmaskValueError
-    fam = case["fam"]
+    fam = case.get("fam")
     expected = (RequirementFailure, AddressValueError, NetmaskValueError, NotImplementedError)
     if case["kind"] == "cmp":
         ans, objs = c12.impl_cmp(case)
         return ans + "|H:" + ",".join(str(hash(o)) for o in objs)
+    if case["kind"] == "cmpx":
+        return impl_cmpx(case)
     if case["kind"] == "int":
         try:
             o = (IPv4Obj if fam == 4 else IPv6Obj)(case["n"])
@@ -263,11 +446,83 @@ def impl(case):
             elif name == "off":
                 x.network_offset = int(arg)
                 out.append("ok")
+            elif name == "setl":
+                attr, _, val = arg.partition(":")
+                assert attr in LEN_NAMES
+                setattr(x, attr, int(val))
+                out.append("ok")
+            elif name == "sets":
+                attr, _, val = arg.partition(":")
+                assert attr in LEN_NAMES
+                setattr(x, attr, wire.dec_str(val))
+                out.append("ok")
+            elif name == "offs":
+                x.network_offset = wire.dec_str(arg)
+                out.append("ok")
+            elif name == "offx":
+                x.network_offset = 1.5
+                out.append("ok")
+            elif name == "addx":
+                x = x + "1"
+                out.append("ok")
+            elif name == "subx":
+                x = x - 1.0
+                out.append("ok")
+            elif name == "getl":
+                out.append(f"{x.prefixlen},{x.masklen},{x.masklength},{x.prefixlength}")
+            elif name == "int":
+                out.append(f"{int(x)},{int(x.__index__())}")
             else:
                 raise AssertionError(op)
         except expected as e:
             out.append(exc_name(e))
+        except (AttributeError, ValueError, TypeError) as e:
+            if case["kind"] != "seqx":
+                raise
+            out.append(exc_name(e))
     return "|".join(out)
+
+
+def impl_cmpx(case):
+    import operator
+    import warnings
+    objs = [c12.build_arg(a) for a in case["args"]]
+    caught = (ValueError, AttributeError, TypeError, AssertionError, NotImplementedError)
+
+    def run(fn):
+        try:
+            r = fn()
+        except caught as e:
+            return exc_name(e)
+        except Exception as e:  # noqa: BLE001  RequirementFailure and friends are plain Exceptions
+            if type(e).__name__ == "RequirementFailure":
+                return exc_name(e)
+            raise
+        if r is True or r is False:
+            return "T" if r else "F"
+        return "None" if r is None else "ok" if hasattr(r, "ip_object") else str(int(r))
+
+    cells = []
+    for a in objs:
+        for b in objs:
+            if isinstance(a, str):
+                cells.append("-/-/-/-")      # the operators of str are not under test
+                continue
+            cells.append("/".join(run(lambda op=op: op(a, b)) for op in (operator.lt, operator.gt, operator.eq, operator.ne)))
+    un = []
+    with warnings.catch_warnings():
+        warnings.simplefilter("ignore")          # IPv6Obj().__int__ returns False (DeprecationWarning)
+        for a in objs:
+            if isinstance(a, str):
+                un.append("-")
+                continue
+            h = run(lambda: hash(a))
+            un.append(";".join([
+                h if h.startswith("err") else "h",
+                run(lambda: int(a) + 0), run(lambda: int(a.__index__())),
+                run(lambda: a.prefixlen), run(lambda: a.masklen), run(lambda: a.masklength), run(lambda: a.prefixlength),
+                run(lambda: a + 1), run(lambda: a - 1), run(lambda: a.network_offset)]))
+    return ",".join(cells) + "|" + ",".join(un)
 
 
 def compare(case, impl_ans, model_ans):
@@ -395,5 +650,107 @@ def oracle_int(case, ans):
     return []
 
 
+def oracle_cmpx(case, ans):
+    """the property speaks about (non-empty) objects per family; empty objects, the other family and a str operand are only
+    compared with the model"""
+    args = case["args"]
+    n = len(args)
+    body, _, un = ans.partition("|")
+    cells = body.split(",")
+    un = un.split(",")
+    if len(cells) != n * n or len(un) != n:
+        return [f"malformed answer {ans[:80]}"]
+    fails = []
+    name = lambda a: f"{addr_text(a[0], a[1])}/{a[2]}"  # noqa: E731
+    for i, a in enumerate(args):
+        if len(a) == 3:
+            f = un[i].split(";")
+            if f[0] != "h":
+                fails.append(f"hash({name(a)}) raised {f[0]}")
+            if f[1] != str(a[1]) or f[2] != str(a[1]):
+                fails.append(f"int() / __index__() of {name(a)} is {f[1]} / {f[2]}")
+            if f[3:7] != [str(a[2])] * 4:
+                fails.append(f"prefixlen, masklen, masklength, prefixlength of {name(a)} are {f[3:7]}")
+        for j, b in enumerate(args):
+            if len(a) == 3 and len(b) == 3 and a[0] == b[0]:
+                ka, kb = key(a[0], a[1], a[2]), key(b[0], b[1], b[2])
+                want = "/".join("T" if x else "F" for x in (ka < kb, ka > kb, ka == kb, ka != kb))
+                if cells[i * n + j] != want:
+                    fails.append(f"(<, >, ==, !=) of {name(a)} and {name(b)} is {cells[i * n + j]}, the keys (network, length, "
+                                 f"address) say {want}")
+    return fails[:3]
+
+
+def oracle_seqx(case, ans):
+    """the same bookkeeping as oracle_seq, for the other setter names and argument types; it stops judging as soon as the
+    property no longer says what the state is (an accepted non-numeric text, an accepted non-int operand)"""
+    fam = case["fam"]
+    w = W[fam]
+    ip, ln = case["obj"]
+    got = ans.split("|")
+    if len(got) != len(case["ops"]):
+        return [f"malformed answer {ans[:80]}"]
+    for k, (op, g) in enumerate(zip(case["ops"], got)):
+        f = op.split(":")
+        net = int(std_net(fam, ip, ln).network_address)
+        last = int(std_net(fam, ip, ln).broadcast_address)
+        here = f"{addr_text(fam, ip)}/{ln}"
+        if f[0] in ("setl", "sets"):
+            text = f[2] if f[0] == "setl" else wire.dec_str(f[2])
+            numeric = text.lstrip("-").isdigit() and text.isascii() if f[0] == "setl" else (text.isdigit() and text.isascii())
+            if fam == 6 and f[1] == "prefixlength":
+                if g == "ok":        # IPv6Obj.prefixlength has no setter in the code; should it get one, the state is unknown here
+                    return []
+                continue
+            if numeric and 0 <= int(text) <= w:
+                if g != "ok":
+                    return [f"{here}.{f[1]} = {text!r} raised {g}"]
+                ln = int(text)
+            elif numeric:
+                if g == "ok":
+                    return [f"{here}.{f[1]} = {text!r} did not raise"]
+            elif g == "ok":
+                return []
+        elif f[0] == "offs":
+            text = wire.dec_str(f[1])
+            try:
+                n = int(text)
+            except ValueError:
+                if g == "ok":
+                    return []
+                continue
+            if 0 <= n <= last - net:
+                if g != "ok":
+                    return [f"{here}.network_offset = {text!r} raised {g}"]
+                ip = net + n
+            elif g == "ok":
+                return [f"{here}.network_offset = {text!r} did not raise although it exceeds the boundaries of the subnet"]
+        elif f[0] in ("offx", "addx", "subx"):
+            if g == "ok":
+                return []
+        elif f[0] == "getl":
+            if g != f"{ln},{ln},{ln},{ln}":
+                return [f"{here}: prefixlen, masklen, masklength, prefixlength are {g}, expected {ln} four times"]
+        elif f[0] == "int":
+            if g != f"{ip},{ip}":
+                return [f"{here}: int() / __index__() are {g}, expected {ip}"]
+        else:
+            # an operation of the seq stream: judge it with oracle_seq on the state reached so far
+            sub = oracle_seq({"fam": fam, "obj": [ip, ln], "ops": [op]}, g)
+            if sub:
+                return sub
+            name, _, arg = op.partition(":")
+            if g == "ok":
+                if name == "add":
+                    ip += int(arg)
+                elif name == "sub":
+                    ip -= int(arg)
+                elif name == "len":
+                    ln = int(arg)
+                elif name == "off":
+                    ip = net + int(arg)
+    return []
+
+
 def oracle(case, ans):
-    return {"cmp": oracle_cmp, "seq": oracle_seq, "int": oracle_int}[case["kind"]](case, ans)
+    return {"cmp": oracle_cmp, "seq": oracle_seq, "int": oracle_int, "cmpx": oracle_cmpx, "seqx": oracle_seqx}[case["kind"]](case, ans)
